@@ -2,7 +2,9 @@
 (***************************************************************************)
 (* Nesting (C05).  A document pattern is                                   *)
 (*    [hs, hk, ks, layers]  hs = segments of the header (0 = none), hk =   *)
-(*                       "std" for [..] / "aot" for [[..]],                *)
+(*                       "std" for [..] / "aot" for [[..]] / "chain" for   *)
+(*                       [[k]], [[k.k]], ... (every prefix an array of     *)
+(*                       tables: two levels of nesting per key),           *)
 (*                       ks = segments of the top-level key,               *)
 (*                       layers = <<layer...>> from the outside in, with   *)
 (*        [c |-> "A", n]        n nested arrays                            *)
@@ -26,8 +28,9 @@ CONSTANTS LIMIT,        \* the recursion limit used when model checking the coun
 RECURSIVE OpenCount(_, _), AddCount(_, _)
 OpenCount(ls, L) == IF ls = <<>> THEN 0 ELSE Size(Head(ls).n, L) + OpenCount(Tail(ls), L)
 AddCount(ls, L) == IF ls = <<>> THEN 0
-                   ELSE (IF Head(ls).c = "A" THEN Size(Head(ls).n, L) ELSE Size(Head(ls).n, L) * Size(Head(ls).s, L)) + AddCount(Tail(ls), L)
-KeysOk(p, L) == HS(p, L) < L /\ Size(p.ks, L) < L /\ \A i \in 1..Len(p.layers) : p.layers[i].c = "I" => Size(p.layers[i].s, L) < L
+                   ELSE (IF Head(ls).c \in {"AE", "IE"} THEN Size(Head(ls).n, L) + 1
+                         ELSE IF Head(ls).c = "A" THEN Size(Head(ls).n, L) ELSE Size(Head(ls).n, L) * Size(Head(ls).s, L)) + AddCount(Tail(ls), L)
+KeysOk(p, L) == HS(p, L) < L /\ (p.hs # "0" => Size(p.hs, L) < L) /\ Size(p.ks, L) < L /\ \A i \in 1..Len(p.layers) : p.layers[i].c \in {"I", "IE"} => Size(p.layers[i].s, L) < L
 Accepts(p, L) ==
   IF DISCIPLINE = "independent" THEN KeysOk(p, L) /\ OpenCount(p.layers, L) < L
   ELSE KeysOk(p, L) /\ (Size(p.ks, L) - 1) + AddCount(p.layers, L) < L
